@@ -1,0 +1,12 @@
+//go:build !verif
+
+package spec
+
+// Verification hooks (see verif_hooks_on.go). Without the `verif` build tag
+// they are empty and inlined away.
+
+func verifStep(string, []string, string, string) {}
+
+func verifResolved(*Ref, string, bool, interface{}) {}
+
+func verifYield(string) {}
